@@ -9,6 +9,23 @@ Section Spelling.
      lexer, an oracle here; the theorem holds whatever it answers *)
   Variable is_ident : bytes -> bool.
 
+  (* a punctuation-only symbol written bare: one Punct token per character,
+     joint except the last. Not the three that mean something else to the macro
+     when they stand alone: "-" (a sign before a number), ":" (a keyword
+     marker) and "." (the dot of a dotted list) - those are spelled #"...". *)
+  Fixpoint punct_spell (s : bytes) : list tt :=
+    match s with
+    | [] => []
+    | [c] => [Punct c Alone]
+    | c :: s' => Punct c Joint :: punct_spell s'
+    end.
+  Definition bare_punct (s : bytes) : bool :=
+    match s with
+    | [] => false
+    | [c] => ident_start_punct c && negb (c =? 45) && negb (c =? 58) && negb (c =? 46)
+    | c :: s' => ident_start_punct c && forallb ident_cont_punct s'
+    end.
+
   Definition spell_name (s : bytes) : list tt :=
     if is_ident s then [Ident s] else [Lit (LStr s s)].
 
@@ -29,7 +46,7 @@ Section Spelling.
     | Number n => spell_number n
     | Char c => [Lit (LChar c)]
     | String s => [Lit (LStr s s)]
-    | Symbol s => if is_ident s then [Ident s] else [Punct 35 Alone; Lit (LStr s s)]
+    | Symbol s => if is_ident s then [Ident s] else if bare_punct s then punct_spell s else [Punct 35 Alone; Lit (LStr s s)]
     | Keyword s => Punct 35 Joint :: Punct 58 Alone :: spell_name s
     | _ => []
     end.
@@ -92,7 +109,8 @@ Section Spelling.
   Proof.
     destruct v as [| |b|n|c|s|s|s|bs|a d|l]; cbn [spell spell_atom cok]; intros H; try (cbn; lia); try contradiction.
     - destruct n as [u|i|f]; cbn [spell_number]; [cbn; lia|cbn; lia|destruct (float_sign f); cbn; lia].
-    - destruct (is_ident s); cbn; lia.
+    - destruct (is_ident s); [cbn; lia|]. destruct (bare_punct s) eqn:Eb; [|cbn; lia].
+      destruct s as [|c [|c2 s2]]; [discriminate|cbn; lia|cbn [punct_spell tts_size fold_right tt_size]; lia].
   Qed.
 
   Lemma mparse_lit f l rest : mparse (S f) (Lit l :: rest) = MOk (MLiteral l, rest).
@@ -115,6 +133,35 @@ Section Spelling.
   Lemma mparse_kw_str f sp sp2 raw s rest : mparse (S f) (Punct 35 sp :: Punct 58 sp2 :: Lit (LStr raw s) :: rest) = MOk (MKeyword raw, rest).
   Proof. reflexivity. Qed.
 
+  (* a bare punctuation symbol *)
+  Lemma parse_identifier_punct s : forall acc rest, s <> [] -> forallb ident_cont_punct s = true ->
+    parse_identifier (punct_spell s ++ rest) acc = (acc ++ s, rest).
+  Proof.
+    induction s as [|c s IH]; intros acc rest Hne Hall; [contradiction|].
+    cbn [forallb] in Hall. apply andb_prop in Hall. destruct Hall as [Hc Hs].
+    destruct s as [|c2 s2].
+    - cbn [punct_spell app parse_identifier]. rewrite Hc. reflexivity.
+    - change (punct_spell (c :: c2 :: s2)) with (Punct c Joint :: punct_spell (c2 :: s2)). cbn [app parse_identifier]. rewrite Hc.
+      rewrite (IH (acc ++ [c]) rest ltac:(discriminate) Hs). rewrite <- app_assoc. reflexivity.
+  Qed.
+  Lemma start_not_special c : ident_start_punct c = true -> (c =? 35) = false /\ (c =? 44) = false.
+  Proof.
+    unfold ident_start_punct, memb. cbn [s2b existsb]. intros H.
+    repeat (apply orb_true_iff in H; destruct H as [H|H]; [apply N.eqb_eq in H; subst c; split; reflexivity|]). discriminate.
+  Qed.
+  Lemma mparse_punct f s rest : bare_punct s = true -> mparse (S f) (punct_spell s ++ rest) = MOk (MSymbol s, rest).
+  Proof.
+    intros Hb. destruct s as [|c [|c2 s2]]; [discriminate| |].
+    - cbn [bare_punct] in Hb. repeat (apply andb_prop in Hb; destruct Hb as [Hb ?]).
+      destruct (start_not_special c Hb) as [E35 E44].
+      cbn [punct_spell app mparse]. rewrite E35, E44, Hb.
+      destruct (c =? 45) eqn:E45; [discriminate|]. destruct (c =? 58) eqn:E58; [discriminate|]. reflexivity.
+    - change (bare_punct (c :: c2 :: s2)) with (ident_start_punct c && forallb ident_cont_punct (c2 :: s2)) in Hb.
+      apply andb_prop in Hb. destruct Hb as [Hc Hs]. destruct (start_not_special c Hc) as [E35 E44].
+      change (punct_spell (c :: c2 :: s2)) with (Punct c Joint :: punct_spell (c2 :: s2)). cbn [app mparse]. rewrite E35, E44, Hc.
+      rewrite (parse_identifier_punct (c2 :: s2) [c] rest ltac:(discriminate) Hs). reflexivity.
+  Qed.
+
   Lemma PV_atom v : is_cons v = false -> is_null v = false -> (forall l, v <> Vector l) -> PV v.
   Proof.
     intros Hc Hn Hv fuel rest Hok Hf. pose proof (spell_size_pos v Hok) as Hpos.
@@ -131,7 +178,8 @@ Section Spelling.
           cbn [meval value_of_neg_lit value_of_lit]; [now rewrite SFopp_invol|reflexivity].
     - rewrite mparse_lit. eexists. repeat split; cbn; auto.
     - rewrite mparse_lit. eexists. repeat split; cbn; auto.
-    - destruct (is_ident s); cbn [app]; [rewrite mparse_ident|rewrite mparse_hash_str]; eexists; repeat split; cbn; auto.
+    - destruct (is_ident s); cbn [app]; [rewrite mparse_ident; eexists; repeat split; cbn; auto|].
+      destruct (bare_punct s) eqn:Eb; [rewrite (mparse_punct f s rest Eb)|cbn [app]; rewrite mparse_hash_str]; eexists; repeat split; cbn; auto.
     - unfold spell_name. destruct (is_ident s); cbn [app]; [rewrite mparse_kw_ident|rewrite mparse_kw_str]; eexists; repeat split; cbn; auto.
   Qed.
 
@@ -149,8 +197,8 @@ Section Spelling.
     match t with
     | Punct 35 _ => True
     | Punct 45 Alone => True
+    | Punct c s => ident_start_punct c = true /\ (c = 46 -> s = Joint)
     | Lit _ | Ident _ | Group _ _ => True
-    | _ => False
     end.
 
   Lemma mparse_list_elem f t ts elements : hd_ok t ->
@@ -160,10 +208,10 @@ Section Spelling.
     | MErr e => MErr e
     end.
   Proof.
-    destruct t as [c s|l|i|d inner]; cbn [hd_ok]; intros H; try reflexivity.
-    destruct c as [|p]; [contradiction|].
-    do 7 (try (destruct p as [p|p|]; try contradiction; try reflexivity)).
-    all: destruct s; try contradiction; reflexivity.
+    destruct t as [c s|l|i|d inner]; intros H; try reflexivity.
+    destruct c as [|p]; [reflexivity|].
+    do 7 (try (destruct p as [p|p|]; try reflexivity)).
+    destruct s; [|reflexivity]. cbn [hd_ok] in H. destruct H as [_ H]. discriminate (H eq_refl).
   Qed.
 
   Lemma mparse_list_nil f elements : mparse_list (S f) [] elements None = MOk (MList elements).
@@ -191,7 +239,19 @@ Section Spelling.
     destruct v as [| |b|n|c|s|s|s|bs|a d|l]; cbn [spell spell_atom cok]; intros H; try contradiction;
       try (eexists; eexists; split; [reflexivity|exact I]).
     - destruct n as [u|i|f]; cbn [spell_number]; [| |destruct (float_sign f)]; eexists; eexists; split; try reflexivity; exact I.
-    - destruct (is_ident s); eexists; eexists; split; try reflexivity; exact I.
+    - destruct (is_ident s); [eexists; eexists; split; try reflexivity; exact I|].
+      destruct (bare_punct s) eqn:Eb; [|eexists; eexists; split; try reflexivity; exact I].
+      destruct s as [|c [|c2 s2]]; [discriminate| |].
+      + cbn [bare_punct] in Eb. repeat (apply andb_prop in Eb; destruct Eb as [Eb ?]).
+        exists (Punct c Alone), []. split; [reflexivity|].
+        assert (Hne : c <> 46) by (intros ->; discriminate).
+        destruct c as [|p]; [discriminate Eb|]. cbn [hd_ok].
+        do 7 (try (destruct p as [p|p|]; try (split; [exact Eb|intros E46; try discriminate E46; try (exfalso; exact (Hne E46))]); try exact I)).
+      + change (bare_punct (c :: c2 :: s2)) with (ident_start_punct c && forallb ident_cont_punct (c2 :: s2)) in Eb.
+        apply andb_prop in Eb. destruct Eb as [Hc _].
+        exists (Punct c Joint), (punct_spell (c2 :: s2)). split; [reflexivity|].
+        destruct c as [|p]; [discriminate Hc|]. cbn [hd_ok].
+        do 7 (try (destruct p as [p|p|]; try (split; [exact Hc|intros _; reflexivity]); try exact I)).
   Qed.
 
   Definition LT (d : value) : Prop :=
